@@ -265,5 +265,61 @@ def serve (N : Net Addr Prefix) (cfg : Cfg Prefix) (c : Conn) (wire : List (Byte
     fwd := (prepareRequest N cfg c (determineTrustedProxy N cfg c (fromWire wire)).1
               (applyOmit cfg (fromWire wire))).map fwdOf }
 
+/-! ### the proxy retry loop (reverseproxy.go `ServeHTTP` / `proxyLoopIteration`) -/
+
+/-- the request header operations (`headers.request`, Caddyfile `header_up`) the harness configures -/
+inductive Ops where
+  | none       -- `h.Headers == nil`
+  | setOther   -- set `X-Verif-Up` from the placeholder `{http.reverse_proxy.upstream.hostport}`
+  | delXFH     -- delete `X-Forwarded-Host`
+deriving DecidableEq, Repr
+
+def kVerifUp : Bytes := [88, 45, 86, 101, 114, 105, 102, 45, 85, 112]
+/-- the harness's only upstream, `127.0.0.1:9` -/
+def upstreamHostport : Bytes := [49, 50, 55, 46, 48, 46, 48, 46, 49, 58, 57]
+
+/-- `h.Headers.Request.ApplyToRequest(r)` for those operations -/
+def applyOps (ops : Ops) (h : Header) : Header :=
+  match ops with
+  | .none => h
+  | .setOther => hPut h kVerifUp (some [upstreamHostport])
+  | .delXFH => hDel h kXFH
+
+/-- does `copyHeader` carry the field over?  It re-`Add`s value by value, so a key holding nil (or
+    no values) is not carried -/
+def carried (h : Header) (key : Bytes) : Bool :=
+  match hGet h key with
+  | some (some (_ :: _)) => true
+  | _ => false
+
+/-- `r.Header = make(http.Header); copyHeader(r.Header, reqHeader)` (the keys of `reqHeader` are
+    already canonical) -/
+def copyHeader (h : Header) : Header := h.filter (fun e => carried h e.1)
+
+/-- one pass of `proxyLoopIteration` up to the round trip.  `reqHeader` is what `ServeHTTP` saved
+    right after `prepareRequest` (`reqHeader := clonedReq.Header`), `cur` is the cloned request's
+    header map as the previous pass left it:
+    `if h.Headers != nil && h.Headers.Request != nil { r.Header = copy(reqHeader); ApplyToRequest(r) }`.
+    The result is `r.Header` as it is handed to the transport. -/
+def attemptHeader (ops : Ops) (reqHeader cur : Header) : Header :=
+  match ops with
+  | .none => cur
+  | .setOther => applyOps .setOther (copyHeader reqHeader)
+  | .delXFH => applyOps .delXFH (copyHeader reqHeader)
+
+/-- the `for` loop of `ServeHTTP`: `fails` passes whose round trip fails and is retried, then one
+    that succeeds; the forwarding fields of every request handed to the transport, in order -/
+def proxyLoop (ops : Ops) (reqHeader : Header) : Nat → Header → List Fwd
+  | 0, cur => [fwdOf (attemptHeader ops reqHeader cur)]
+  | fails + 1, cur =>
+    fwdOf (attemptHeader ops reqHeader cur) :: proxyLoop ops reqHeader fails (attemptHeader ops reqHeader cur)
+
+/-- one request whose first `fails` upstream round trips fail: what every attempt sends;
+    `none` = `prepareRequest` returned an error (500, no attempt) -/
+def serveAttempts (N : Net Addr Prefix) (cfg : Cfg Prefix) (c : Conn) (wire : List (Bytes × Bytes))
+    (ops : Ops) (fails : Nat) : Option (List Fwd) :=
+  (prepareRequest N cfg c (determineTrustedProxy N cfg c (fromWire wire)).1
+      (applyOmit cfg (fromWire wire))).map (fun h => proxyLoop ops h fails h)
+
 end
 end CaddyModel.C10
